@@ -4,13 +4,16 @@ From Coq Require Import List Arith Bool Lia NArith Ring.
 From Verif.C03 Require Import Model Proofs Proofs2 Proofs3 Proofs5 Proofs6 Proofs8.
 Import ListNotations.
 
+Lemma F2len : forall (A B : Type) (P : A -> B -> Prop) l1 l2, Forall2 P l1 l2 -> length l1 = length l2.
+Proof. intros A B P l1 l2 H. induction H; simpl; auto. Qed.
+
 Lemma ravel_acc_lin : forall s t acc, length s = length t ->
   ravel_acc s t acc = (acc * N.of_nat (nprod s) + ravel_acc s t 0)%N.
 Proof.
   induction s as [|n s IH]; intros t acc H; destruct t as [|i t]; simpl in H; try discriminate.
   - simpl. lia.
   - simpl ravel_acc. rewrite (IH t (acc * N.of_nat n + N.of_nat i)%N) by lia.
-    rewrite (IH t (0 * N.of_nat n + N.of_nat i)%N) by lia.
+    rewrite (IH t (N.of_nat i)) by lia.
     unfold nprod. simpl fold_right. fold (nprod s). rewrite Nnat.Nat2N.inj_mul. lia.
 Qed.
 
@@ -24,6 +27,112 @@ Lemma ravel_lt : forall s t, Forall2 (fun n x => x < n) s t -> (ravel s t < N.of
 Proof.
   intros s t H. induction H as [|n i s t Hi H IH].
   - unfold ravel, nprod. simpl. lia.
-  - rewrite ravel_cons by (eapply Forall2_length_eq; eauto).
+  - rewrite ravel_cons by (eapply F2len; eauto).
     unfold nprod. simpl fold_right. fold (nprod s). rewrite Nnat.Nat2N.inj_mul. nia.
 Qed.
+
+Section MKron.
+Variable R : Type.
+Variables (r0 r1 : R) (radd rmul rsub : R -> R -> R) (ropp : R -> R).
+Hypothesis Rth : ring_theory r0 r1 radd rmul rsub ropp eq.
+Add Ring Rring9 : Rth.
+Variable pmat : nat -> nat -> smat R.
+
+Notation mk := (multi_kron R r1 rmul pmat).
+Notation kent := (kron_entry R r0 r1 rmul pmat).
+
+(* number of rows of the 1-D prolongators of level lv, axes d, d+1, .., d+n-1 *)
+Definition rowdims (lv d n : nat) : list nat := map (fun t => length (pmat lv t)) (seq d n).
+
+(* the columns stored in the prolongator of axis d + t lie below the t-th coarse dimension *)
+Definition cols_ok (lv d : nat) (dims : list nat) : Prop :=
+  forall t row x, t < length dims -> In row (pmat lv (d + t)) -> In x (keys R row) -> (x < N.of_nat (nth t dims 0%nat))%N.
+
+Lemma cols_ok_tail : forall lv d n dims, cols_ok lv d (n :: dims) -> cols_ok lv (S d) dims.
+Proof.
+  intros lv d n dims H t row x Ht Hr Hx. apply (H (S t) row x); simpl; auto; [lia|].
+  replace (d + S t) with (S d + t) by lia. exact Hr.
+Qed.
+
+Lemma kron2_length : forall (A B : smat R) mB, length (kron2 R rmul A B mB) = length A * length B.
+Proof.
+  intros A B mB. unfold kron2. induction A as [|ra A IH]; simpl; [reflexivity|].
+  rewrite app_length, map_length. f_equal. exact IH.
+Qed.
+
+Lemma mk_length : forall lv dims d, dims <> [] -> length (mk lv d dims) = nprod (rowdims lv d (length dims)).
+Proof.
+  intros lv. induction dims as [|n dims IH]; intros d H; [contradiction|].
+  destruct dims as [|n2 dims].
+  - simpl. unfold rowdims, nprod. simpl. lia.
+  - change (mk lv d (n :: n2 :: dims)) with
+      (kron2 R rmul (pmat lv d) (mk lv (S d) (n2 :: dims)) (N.of_nat (nprod (n2 :: dims)))).
+    rewrite kron2_length. rewrite IH by discriminate.
+    unfold rowdims. simpl length. simpl seq. simpl map. unfold nprod. simpl fold_right. reflexivity.
+Qed.
+
+Lemma kron2_keys : forall (A B : smat R) mB row x, In row (kron2 R rmul A B mB) -> In x (keys R row) ->
+  exists ra rb xa xb, In ra A /\ In rb B /\ In xa (keys R ra) /\ In xb (keys R rb) /\ x = (xa * mB + xb)%N.
+Proof.
+  intros A B mB row x Hrow Hx. unfold kron2 in Hrow. apply in_flat_map in Hrow. destruct Hrow as [ra [Hra Hrow]].
+  apply in_map_iff in Hrow. destruct Hrow as [rb [<- Hrb]].
+  unfold Proofs5.keys in Hx. apply in_map_iff in Hx. destruct Hx as [e [<- He]].
+  apply in_flat_map in He. destruct He as [ea [Hea He]]. apply in_map_iff in He. destruct He as [eb [<- Heb]].
+  exists ra, rb, (fst ea), (fst eb). repeat split; auto; apply in_map; auto.
+Qed.
+
+Lemma mk_cols : forall lv dims d, dims <> [] -> cols_ok lv d dims ->
+  forall row x, In row (mk lv d dims) -> In x (keys R row) -> (x < N.of_nat (nprod dims))%N.
+Proof.
+  intros lv. induction dims as [|n dims IH]; intros d H HC row x Hrow Hx; [contradiction|].
+  destruct dims as [|n2 dims].
+  - simpl in Hrow. specialize (HC 0 row x ltac:(simpl; lia)). rewrite Nat.add_0_r in HC. specialize (HC Hrow Hx).
+    simpl in HC. unfold nprod. simpl. lia.
+  - change (mk lv d (n :: n2 :: dims)) with
+      (kron2 R rmul (pmat lv d) (mk lv (S d) (n2 :: dims)) (N.of_nat (nprod (n2 :: dims)))) in Hrow.
+    destruct (kron2_keys _ _ _ _ _ Hrow Hx) as [ra [rb [xa [xb [Ha [Hb [Hxa [Hxb ->]]]]]]]].
+    pose proof (IH (S d) ltac:(discriminate) (cols_ok_tail _ _ _ _ HC) rb xb Hb Hxb) as Hb2.
+    pose proof (HC 0 ra xa ltac:(simpl; lia)) as Ha2. rewrite Nat.add_0_r in Ha2. specialize (Ha2 Ha Hxa). simpl in Ha2.
+    change (nprod (n :: n2 :: dims)) with (n * nprod (n2 :: dims)). rewrite Nnat.Nat2N.inj_mul. nia.
+Qed.
+
+(* entry (ravel r', ravel r) of the Kronecker product of the 1-D prolongators is the product of their entries *)
+Lemma multi_kron_entry_l : forall lv dims d r r',
+  cols_ok lv d dims ->
+  Forall2 (fun n x => x < n) dims r ->
+  Forall2 (fun n x => x < n) (rowdims lv d (length dims)) r' ->
+  sm_get R r0 (mk lv d dims) (ravel (rowdims lv d (length dims)) r') (ravel dims r) = kent lv d r' r.
+Proof.
+  intros lv. induction dims as [|n dims IH]; intros d r r' HC Hr Hr'.
+  - inversion Hr; subst. simpl in Hr'. inversion Hr'; subst. simpl. unfold sm_get, sm_row, ravel. simpl.
+    unfold sv_get. simpl. reflexivity.
+  - inversion Hr as [|n0 j s rt Hj Hrt]; subst.
+    unfold rowdims in Hr'. simpl length in Hr'. simpl seq in Hr'. simpl map in Hr'.
+    inversion Hr' as [|n0 i s r't Hi Hr't]; subst.
+    destruct dims as [|n2 dims].
+    + inversion Hrt; subst. simpl in Hr't. inversion Hr't; subst.
+      simpl. unfold rowdims, ravel. simpl. unfold sm_get, sm_row. rewrite Nnat.Nat2N.id. unfold p1. ring.
+    + fold (rowdims lv (S d) (length (n2 :: dims))) in Hr't.
+      change (mk lv d (n :: n2 :: dims)) with
+        (kron2 R rmul (pmat lv d) (mk lv (S d) (n2 :: dims)) (N.of_nat (nprod (n2 :: dims)))).
+      change (rowdims lv d (length (n :: n2 :: dims))) with
+        (length (pmat lv d) :: rowdims lv (S d) (length (n2 :: dims))).
+      rewrite (ravel_cons (length (pmat lv d))) by (eapply F2len; eauto).
+      rewrite (ravel_cons n) by (eapply F2len; eauto).
+      pose proof (mk_length lv (n2 :: dims) (S d) ltac:(discriminate)) as HL.
+      pose proof (ravel_lt _ _ Hr't) as Hlt'. pose proof (ravel_lt _ _ Hrt) as Hlt.
+      rewrite <- HL in Hlt' |- *.
+      set (B := mk lv (S d) (n2 :: dims)) in *.
+      set (i2 := N.to_nat (ravel (rowdims lv (S d) (length (n2 :: dims))) r't)).
+      replace (N.of_nat i * N.of_nat (length B) + ravel (rowdims lv (S d) (length (n2 :: dims))) r't)%N
+        with (N.of_nat (i * length B + i2)) by (unfold i2; lia).
+      rewrite (kron2_entry_l R r0 r1 radd rmul rsub ropp Rth) ; auto.
+      * simpl kron_entry. unfold p1. f_equal.
+        -- unfold sm_get, sm_row. rewrite Nnat.Nat2N.id. reflexivity.
+        -- unfold i2. rewrite Nnat.N2Nat.id. unfold B. apply IH; auto. apply (cols_ok_tail _ _ _ _ HC).
+      * unfold i2. lia.
+      * intros rb x Hrb Hx.
+        apply (mk_cols lv (n2 :: dims) (S d) ltac:(discriminate) (cols_ok_tail _ _ _ _ HC) rb x Hrb Hx).
+Qed.
+
+End MKron.
